@@ -1,6 +1,12 @@
 package main
 
-import "golang.org/x/tools/go/ssa"
+import (
+	"fmt"
+	"go/types"
+	"strings"
+
+	"golang.org/x/tools/go/ssa"
+)
 
 const spPkg = "pkg/ipam/schedulerplugin"
 
@@ -34,5 +40,213 @@ func ruleBindAfterAllocate(c *Ctx, rule string) {
 			continue
 		}
 		c.ob(rule, fn, "bind only after allocateIP succeeded", m, ok, "the binding call (inside the poll closure) is reachable only through the err==nil edge of allocateIP")
+	}
+}
+
+// heldAt reports whether lock is in the must-hold set before instruction in (lockset engine).
+func heldAt(c *Ctx, fn *ssa.Function, in ssa.Instruction, lock string) (bool, string) {
+	la := c.locks()
+	fi := la.info[fn]
+	if fi == nil {
+		return false, "function not analysed"
+	}
+	st := fi.before[in]
+	if st == nil {
+		return false, "no state"
+	}
+	if st.top {
+		return true, "unreachable"
+	}
+	return st.held[lock] != modeNone, st.String()
+}
+
+// C01.R4 — every IPAM mutator call made from the scheduler plugin runs under the pod lock (through the call chain).
+func rulePodLockAtMutators(c *Ctx, rule string) {
+	la := c.locks()
+	n := 0
+	for _, fn := range c.SrcFns {
+		if fn.Pkg.Pkg.Path() != modPath+spPkg {
+			continue
+		}
+		for _, need := range la.info[fn].needs {
+			if need.lock == podLockID {
+				n++
+			}
+		}
+	}
+	c.note("%s: %d IPAM mutator call sites in package schedulerplugin", rule, n)
+	for _, fn := range c.SrcFns {
+		why, isRoot := la.roots[fn]
+		if !isRoot {
+			continue
+		}
+		want := map[string]bool{podLockID: true}
+		if la.transNeeds(fn, want) == 0 {
+			continue
+		}
+		fi := la.info[fn]
+		r, bad := fi.req[podLockID]
+		if !bad {
+			c.ob(rule, fn, "IPAM mutators under the pod lock", nil, true, "every IPAM mutator call reachable from this entry point has the pod key-mutex class in its must-hold set")
+			continue
+		}
+		inner := r
+		for inner.need != nil && inner.need.viaReq != nil {
+			inner = inner.need.viaReq
+		}
+		construct := inner.need.what + " in " + fnName(inner.owner) + " without the pod lock"
+		if fn.Name() == "Preempt" && fnName(inner.owner) == "(*@/pkg/ipam/schedulerplugin.FloatingIPPlugin).allocateInSubnet" ||
+			fn.Name() == "Preempt" && fnName(inner.owner) == "(*@/pkg/ipam/schedulerplugin.FloatingIPPlugin).allocateInSubnetWithKey" {
+			c.exempt(rule, fn, construct, r.need.at, "Preempt -> getSubnet is not one of the operations C01 quantifies over; IPAM-level atomicity and the pool lock still hold (DESIGN.md §5 observation)")
+			continue
+		}
+		if fn.Name() == "preempt" && fn.Pkg.Pkg.Path() == modPath+"pkg/ipam/server" {
+			c.exempt(rule, fn, construct, r.need.at, "HTTP wrapper of Preempt (same exception)")
+			continue
+		}
+		c.ob(rule, fn, construct, r.need.at, false, "entry point ("+why+") reaches an IPAM mutator without the pod lock", la.chain(r)...)
+	}
+}
+
+// C01.R5 — UID guard in allocateIP.
+func ruleUIDGuard(c *Ctx, rule string) {
+	fn := c.MustFn(rule, spPkg, "(*FloatingIPPlugin).allocateIP")
+	if fn == nil {
+		return
+	}
+	isUID := func(v ssa.Value) bool {
+		return dependsOn(v, func(x ssa.Value) bool {
+			if isFieldLoadNamed(x, "UID") {
+				return true
+			}
+			if call, ok := x.(*ssa.Call); ok {
+				return strings.HasSuffix(calleeName(call), ".GetUID")
+			}
+			return false
+		})
+	}
+	mism := guardEdges(fn, predNeq(func(v ssa.Value) bool { return pathEndsWith(v, "PodUid") }, isUID))
+	if len(mism) == 0 {
+		c.ob(rule, fn, "stored PodUid compared with the pod's UID", nil, false, "no comparison <ipInfo>.PodUid != <pod UID> found in allocateIP")
+		return
+	}
+	ei := errResultIndex(fn)
+	muts := append(calls(fn, "(*FloatingIPPlugin).cloudProviderAssignIP"), calls(fn, ipamMutators...)...)
+	for _, e := range mism {
+		iff := e.from.Instrs[len(e.from.Instrs)-1]
+		r := reachFromEdge(e, nil)
+		nret, ok := 0, true
+		for _, ret := range returns(fn) {
+			if r.has(ret) {
+				nret++
+				if !nonNilErrOperand(retVal(ret, ei), nil) {
+					ok = false
+				}
+			}
+		}
+		// from the mismatch edge nothing but an error return may follow: no assign, no IPAM mutator, no loop continuation
+		cont := r.has(iff)
+		var reachedMut ssa.Instruction
+		if m := r.anyCall(muts); m != nil {
+			reachedMut = m
+		}
+		c.ob(rule, fn, "UID mismatch edge ends in an error return", iff, ok && nret > 0 && !cont && reachedMut == nil,
+			fmt.Sprintf("from the mismatch edge: %d returns reachable, all with non-nil error=%v, loop continues=%v, assign/mutator reachable=%v", nret, ok, cont, reachedMut != nil))
+	}
+	// the guard precedes every assign / mutator / successful return
+	var guards []ssa.Instruction
+	for _, e := range mism {
+		guards = append(guards, e.from.Instrs[len(e.from.Instrs)-1])
+	}
+	// "precedes" modulo the zero-iteration case: a mutator may be reached without the comparison only when the
+	// lookup returned no entries; decided as: every path to the mutator passes the guard loop's header block.
+	hdr := loopHeaderOf(guards[0])
+	for _, m := range muts {
+		var ok bool
+		if hdr != nil {
+			ok = precedes(fn, []ssa.Instruction{hdr.Instrs[0]}, m)
+		} else {
+			ok = precedes(fn, guards, m)
+		}
+		c.ob(rule, fn, "UID guard loop precedes "+shortCallee(m), m, ok, "every path from entry to the call passes the loop that compares stored UIDs (zero iterations only if nothing is stored for the key)")
+	}
+}
+
+// loopHeaderOf finds the innermost loop header block whose loop contains in (a block that dominates in's block and
+// is reachable from it).
+func loopHeaderOf(in ssa.Instruction) *ssa.BasicBlock {
+	b := in.Block()
+	fn := b.Parent()
+	var best *ssa.BasicBlock
+	for _, h := range fn.Blocks {
+		if !h.Dominates(b) {
+			continue
+		}
+		// is there a back edge to h from a block reachable from b?
+		isLoop := false
+		for _, p := range h.Preds {
+			if h.Dominates(p) && blockReaches(b, p) {
+				isLoop = true
+			}
+		}
+		if isLoop && (best == nil || best.Dominates(h)) {
+			best = h
+		}
+	}
+	return best
+}
+
+func blockReaches(from, to *ssa.BasicBlock) bool {
+	seen := map[*ssa.BasicBlock]bool{}
+	work := []*ssa.BasicBlock{from}
+	for len(work) > 0 {
+		b := work[len(work)-1]
+		work = work[:len(work)-1]
+		if b == to {
+			return true
+		}
+		if seen[b] {
+			continue
+		}
+		seen[b] = true
+		work = append(work, b.Succs...)
+	}
+	return false
+}
+
+// ruleErrorsReturned: in the listed functions every call whose callee is a module function, an IPAM method or a
+// cloud-provider wrapper and returns an error has that error returned to the caller (never dropped or only logged).
+func ruleErrorsReturned(c *Ctx, rule string, fns []string, pkg string) {
+	for _, name := range fns {
+		fn := c.MustFn(rule, pkg, name)
+		if fn == nil {
+			continue
+		}
+		allInstrs(fn, func(in ssa.Instruction) {
+			call, ok := in.(*ssa.Call)
+			if !ok {
+				return
+			}
+			n := calleeName(call)
+			if !(strings.Contains(n, "@/") || strings.Contains(n, "IPAM)")) || strings.Contains(n, "klog") {
+				return
+			}
+			if len(errValues(call)) == 0 && call.Call.Signature().Results().Len() > 0 {
+				res := call.Call.Signature().Results()
+				if !types.Identical(res.At(res.Len()-1).Type(), errorType) {
+					return
+				}
+			}
+			res := call.Call.Signature().Results()
+			if res.Len() == 0 || !types.Identical(res.At(res.Len()-1).Type(), errorType) {
+				return
+			}
+			ok2, dec, why := onErrorReturnsErr(fn, call)
+			if !dec {
+				c.ob(rule, fn, "error of "+shortCallee(call)+" is returned", call, false, "error result is dropped or not tested: "+why)
+				return
+			}
+			c.ob(rule, fn, "error of "+shortCallee(call)+" is returned", call, ok2, "every return reachable from the err!=nil edge carries a non-nil error "+why)
+		})
 	}
 }
